@@ -26,7 +26,10 @@ META = dict(
                 'reads session_interface::temp_cookie_ through a private-access define.'),
 )
 
-GEN = {}
+GEN = {
+    # crypto::key::from_hex (hex digit value used by key::set_hex for every configured key)
+    'Gen_c05key': dict(src='src/crypto.cpp', functions=[('from_hex', 'g_key_from_hex')]),
+}
 
 ALGS = ['md5', 'sha1', 'sha224', 'sha256', 'sha384', 'sha512']
 DLEN = dict(md5=16, sha1=20, sha224=28, sha256=32, sha384=48, sha512=64)
@@ -946,7 +949,7 @@ def run_differential(ctx, cases, exe, mexe):
     import time, hashlib as hl
     cov = ctx.coverage
     t0 = time.time()
-    rc, out_i, err = vlib.run_lines_parallel(exe, cases)
+    rc, out_i, err = vlib.run_lines_parallel(exe, cases, env={'ASAN_OPTIONS': 'detect_leaks=0:abort_on_error=0'})
     t1 = time.time()
     cov['impl_wall_s'] = round(t1 - t0, 2)
     if len(out_i) < len(cases):
@@ -960,8 +963,21 @@ def run_differential(ctx, cases, exe, mexe):
     seen = set()
     nev = 0
     mlines, midx = [], []
+    first_blocks = {}
     for i, c in enumerate(cases):
         o = out_i[i]
+        # across scenarios: every encrypting-encryptor object starts from a fresh random IV, so the first cipher block
+        # of its first cookie never repeats (same key material) -- equal payloads must not give equal cookies
+        if not crashed(o) and o.startswith('ok') and c.startswith('scn '):
+            mat = material(c.split(' ')[1])
+            c0 = first_c0(parse_impl(o)[1])
+            if mat and mat[0] == 'aes' and c0:
+                k0 = (mat, c0)
+                if k0 in first_blocks and first_blocks[k0] != c:
+                    ctx.fail('aes-nonce-repeated', 'two encryptor objects with the same keys started from the same IV '
+                             '(first cipher blocks equal): equal payloads give equal cookies\n  first block: ' + c0,
+                             reduce_case(first_blocks[k0], -1) + '\n' + reduce_case(c, -1))
+                first_blocks.setdefault(k0, c)
         for key, desc, ti in oracle_all(c, o):
             red = reduce_case(c, ti)
             ctx.fail(key, desc + '\n  case: %s\n  impl: %s' % (red[:600], o[:300]), red)
@@ -1056,10 +1072,18 @@ def run(ctx):
         'confidentiality (payload / payload-equality hiding) is NOT proved: computational property of AES-CBC with unpredictable chained IV',
         'x86-64: little-endian uint32_t / time_t, 8-byte time_t, bit-field layout of the packed session header',
         'payloads shorter than 2^32 - 12 bytes (uint32_t length field)']
-    exe, err = vlib.build_harness('C05_cookies', ['C05_cookies.cpp'])
+    # the anchored sources of the working tree are compiled into the harness executable with AddressSanitizer (their
+    # definitions take precedence over the copies in libcppcms.so): out-of-range reads in the code under test abort
+    R = vlib.REPO
+    exe, err = vlib.build_harness('C05_cookies', ['C05_cookies.cpp', R + '/src/session_cookies.cpp', R + '/src/hmac_encryptor.cpp',
+                                                  R + '/src/aes_encryptor.cpp'],
+                                  extra=['-fsanitize=address', '-fno-omit-frame-pointer'])
     if not exe:
         ctx.broke('harness build failed', err)
         return
+    ctx.coverage['sanitizer_run'] = ('harness + src/session_cookies.cpp + src/hmac_encryptor.cpp + src/aes_encryptor.cpp of the working tree '
+                                     'compiled with -fsanitize=address; base64, crypto, aes, session_pool, session_interface from the regular '
+                                     'library build' + ('' if ctx.quick() else '; all cases run a second time against the regular library only'))
     mexe, err = vlib.build_model('C05', 'C05_driver.ml', 'c05m')
     if not mexe:
         ctx.broke('model extraction/build failed', err)
@@ -1081,3 +1105,12 @@ def run(ctx):
     ctx.coverage['exhaustive_parts'] = ['all single-bit flips of cipher text and cookie text, all truncations of a small valid cookie, '
                                         'for a third of the configurations in quick and all in thorough']
     run_differential(ctx, cases, exe, mexe)
+    if not ctx.quick() and ctx.replay_cases is None:
+        pexe, err = vlib.build_harness('C05_cookies_plain', ['C05_cookies.cpp'])
+        if not pexe:
+            ctx.broke('plain harness build failed', err)
+            return
+        ev, dn = ctx.coverage.get('evaluations', 0), ctx.coverage.get('distinct_nontrivial', 0)
+        run_differential(ctx, cases, pexe, mexe)
+        ctx.coverage['evaluations_regular_library'] = ctx.coverage['evaluations'] - ev
+        ctx.coverage['distinct_nontrivial'] = dn      # same cases: do not count twice
